@@ -50,6 +50,15 @@ class BMPWriter:
         self.linesize = align32((self.width * self.bits + 7) // 8)
         self.datasize = self.linesize * self.height
         headersize = 14 + 40 + ncols * 4
+        # The header has 32-bit fields for the sizes.
+        if (
+            not 0 <= self.width < 2**31
+            or not 0 <= self.height < 2**31
+            or headersize + self.datasize >= 2**32
+        ):
+            raise PDFValueError(
+                "Cannot write a BMP file of %r x %r pixels" % (width, height)
+            )
         info = struct.pack(
             "<IiiHHIIIIII",
             40,
@@ -246,6 +255,11 @@ class ImageWriter:
         """Save an image without encoding, just bytes"""
         name, path = self._create_unique_image_name(image, ".jpg")
         width, height = image.srcsize
+        if width <= 0 or height <= 0 or image.bits <= 0:
+            raise PDFValueError(
+                "Cannot save an image of %r x %r pixels with %r bits per component"
+                % (width, height, image.bits)
+            )
         channels = len(image.stream.get_data()) / width / height / (image.bits / 8)
         with open(path, "wb") as fp:
             try:
